@@ -1,5 +1,6 @@
 import BreezyVerif.Model.C37
 import BreezyVerif.Lemmas.C37
+import BreezyVerif.Lemmas.C37B
 /-!
 C37 — conditional git ref updates: theorems.  All statements are for every
 store (any number of loose / packed / symbolic refs), every name and every
@@ -76,6 +77,48 @@ theorem cas_success_resolves (s : Store) (n : Nat) (old : Option Nat) (new : Nat
 example : follow ⟨[(0, .sym 1)], [(1, 7)]⟩ 0 = some ([0, 1], some 7) ∧
     setIfEquals ⟨[(0, .sym 1)], [(1, 7)]⟩ 0 (some 7) 8 = (true, ⟨[(0, .sym 1), (1, .sha 8)], [(1, 7)]⟩) ∧
     setIfEquals ⟨[(0, .sym 1)], [(1, 7)]⟩ 0 (some 6) 8 = (false, ⟨[(0, .sym 1)], [(1, 7)]⟩) := by decide
+
+/-- the condition in the property's own words: when the symref chain of the name
+can be followed, a conditional `set_if_equals` succeeds exactly when the expected
+value is what the name currently resolves to (`ZERO_SHA` for a name that
+resolves to nothing) -/
+theorem cas_success_iff_resolve (s : Store) (n o new : Nat) (names : List Nat) (res : Option Nat)
+    (hf : follow s n = some (names, res)) :
+    (setIfEquals s n (some o) new).1 = true ↔ o = (match resolve s n with | some x => x | none => 0) := by
+  obtain ⟨r, hr, hterm, _⟩ := followAux_last s 5 n [] names res hf
+  have hreal : realName s n = r := by simp [realName, hf, hr]
+  have hres : resolve s n = res := by simp [resolve, hf]
+  have hcur := current_eq_readRef s r
+  rw [cas_success_iff, hreal, hres]
+  cases res with
+  | none =>
+    simp only [Option.map_none] at hterm
+    simp only [hterm] at hcur
+    simp [hcur, eq_comm]
+  | some x =>
+    simp only [Option.map_some] at hterm
+    simp only [hterm] at hcur
+    simp [hcur, eq_comm]
+
+example : follow ⟨[(0, .sym 1)], [(1, 7)]⟩ 0 = some ([0, 1], some 7) ∧
+    (setIfEquals ⟨[(0, .sym 1)], [(1, 7)]⟩ 0 (some 7) 8).1 = true ∧
+    follow ⟨[(0, .sym 1)], []⟩ 0 = some ([0, 1], none) ∧
+    (setIfEquals ⟨[(0, .sym 1)], []⟩ 0 (some 0) 8).1 = true ∧
+    (setIfEquals ⟨[(0, .sym 1)], []⟩ 0 (some 7) 8).1 = false := by decide
+
+/-- when the chain cannot be followed (a symref loop, or more than five links)
+the name does not resolve and EVERY conditional `set_if_equals` fails: the
+name that is compared is the symbolic ref itself, which holds no SHA -/
+theorem cas_loop_fails (s : Store) (n o new : Nat) (hf : follow s n = none) :
+    setIfEquals s n (some o) new = (false, s) ∧ resolve s n = none := by
+  obtain ⟨t, ht⟩ := follow_none_sym s n hf
+  have hreal : realName s n = n := by simp [realName, hf]
+  have hcur : current s n = .sym t := by simp [current, ht]
+  refine ⟨?_, by simp [resolve, hf]⟩
+  unfold setIfEquals
+  simp [hreal, hcur]
+
+example : follow ⟨[(0, .sym 1), (1, .sym 0)], []⟩ 0 = none := by decide
 
 /-! ### remove_if_equals -/
 
@@ -161,26 +204,70 @@ theorem add_if_new_success_iff (s s' : Store) (n v : Nat) (b : Bool) (h : addIfN
 /-! ### two updaters -/
 
 /-- with the read and write phases of an updater executed together (as under a
-per-ref lock) an updater is one atomic `set_if_equals` -/
+per-ref lock) an updater — `set_if_equals`, `add_if_new` or `remove_if_equals` —
+is one atomic operation of the specification -/
 theorem cas_linearizable_under_lock (s : Store) (u : Upd) :
     let r1 := stepUpd s u .idle
     let r2 := stepUpd r1.1 u r1.2
-    r2 = ((setIfEquals s u.name (some u.old) u.new).2, .done (setIfEquals s u.name (some u.old) u.new).1) := by
-  simp only [stepUpd, setIfEquals]
-  by_cases h : current s (realName s u.name) = .sha u.old
-  · simp [h, stepUpd]
-  · simp [h, stepUpd]
+    r2 = specUpd s u := fin_eq_spec s u
 
 /-- consequently the schedules that do not split an updater give a sequential order -/
 theorem cas_atomic_schedules (s : Store) (a b : Upd) :
     runSched a b [false, false, true, true] (s, .idle, .idle) =
-      (let ra := setIfEquals s a.name (some a.old) a.new
-       let rb := setIfEquals ra.2 b.name (some b.old) b.new
-       (rb.2, .done ra.1, .done rb.1)) := by
-  have ha := cas_linearizable_under_lock s a
-  have hb := cas_linearizable_under_lock (setIfEquals s a.name (some a.old) a.new).2 b
-  simp only at ha hb
-  simp only [runSched, ha, hb]
+      (let ra := specUpd s a
+       let rb := specUpd ra.1 b
+       (rb.1, ra.2, rb.2)) ∧
+    runSched a b [true, true, false, false] (s, .idle, .idle) =
+      (let rb := specUpd s b
+       let ra := specUpd rb.1 a
+       (ra.1, ra.2, rb.2)) := by
+  simp only [← fin_eq_spec]
+  exact ⟨rfl, rfl⟩
+
+/-- EVERY schedule (any list of moves, any length, any two updaters of any kind,
+any store): once both updaters have finished, the outcome is that of one of the
+two sequential orders of the atomic operations, or — only when both read phases
+decided to write on the initial store — one of the two raced outcomes in which
+both writes are applied on top of each other and both report success -/
+theorem sched_classification (s : Store) (a b : Upd) (l : List Bool) :
+    let st := runSched a b l (s, .idle, .idle)
+    st.2.1.finished = true → st.2.2.finished = true →
+      st = (let ra := specUpd s a; let rb := specUpd ra.1 b; (rb.1, ra.2, rb.2)) ∨
+      st = (let rb := specUpd s b; let ra := specUpd rb.1 a; (ra.1, ra.2, rb.2)) ∨
+      ((readPhase s a).pending = true ∧ (readPhase s b).pending = true ∧
+        (st = ((stepUpd (stepUpd s a (readPhase s a)).1 b (readPhase s b)).1, .done true, .done true) ∨
+         st = ((stepUpd (stepUpd s b (readPhase s b)).1 a (readPhase s a)).1, .done true, .done true))) := by
+  intro st ha hb
+  have h := reach_finished s a b st (reach_run s a b l _ .i00) ha hb
+  simp only [seqAB, seqBA, fin_eq_spec] at h
+  rcases h with h | h | ⟨hpa, hpb, h⟩
+  · exact Or.inl h
+  · exact Or.inr (Or.inl h)
+  · refine Or.inr (Or.inr ⟨hpa, hpb, ?_⟩)
+    have ea : (fin s a).2 = .done true := step_pending s a _ hpa
+    have eb : (fin s b).2 = .done true := step_pending s b _ hpb
+    rcases h with h | h
+    · left
+      rw [h, racedAB, ea, step_pending _ b _ hpb]
+      rfl
+    · right
+      rw [h, racedBA, eb, step_pending _ a _ hpa]
+      rfl
+
+/-- every schedule that gives each updater at least two moves finishes both, so
+`sched_classification` covers all complete schedules -/
+theorem sched_complete (s : Store) (a b : Upd) (l : List Bool)
+    (hA : 2 ≤ l.count false) (hB : 2 ≤ l.count true) :
+    (runSched a b l (s, .idle, .idle)).2.1.finished = true ∧
+      (runSched a b l (s, .idle, .idle)).2.2.finished = true := by
+  have h1 : min 2 (0 + l.count false) ≤ (runSched a b l (s, .idle, .idle)).2.1.prog :=
+    (prog_run a b l (s, .idle, .idle)).1
+  have h2 : min 2 (0 + l.count true) ≤ (runSched a b l (s, .idle, .idle)).2.2.prog :=
+    (prog_run a b l (s, .idle, .idle)).2
+  exact ⟨(prog_finished _).2 (by omega), (prog_finished _).2 (by omega)⟩
+
+example : ([false, true, false, true] : List Bool).count false = 2 ∧
+    ([false, true, false, true] : List Bool).count true = 2 := by decide
 
 /-- two atomic compare-and-swaps expecting the same old value cannot both
 succeed (the second sees the first one's value), for every chain within the
@@ -210,7 +297,6 @@ theorem cas_atomic_second_fails (s : Store) (n o a b : Nat) (ha : a ≠ o)
       simp [realName, follow, this, hr]
   unfold setIfEquals
   simp only [hreal, current_write_same]
-  have : (Val.sha a = Val.sha o) = False := by simp [ha]
   simp [ha]
 
 example : follow ⟨[(1, .sha 7)], []⟩ 1 = some ([1], some 7) ∧ (8 : Nat) ≠ 7 ∧
@@ -221,11 +307,96 @@ write; both report success and the first write is lost, which no sequential
 order of two compare-and-swaps produces -/
 theorem cas_race_witness :
     let s : Store := ⟨[(1, .sha 7)], []⟩
-    let a : Upd := ⟨1, 7, 8⟩
-    let b : Upd := ⟨1, 7, 9⟩
+    let a : Upd := ⟨.set, 1, 7, 8⟩
+    let b : Upd := ⟨.set, 1, 7, 9⟩
     runSched a b [false, true, false, true] (s, .idle, .idle) = (⟨[(1, .sha 9)], []⟩, .done true, .done true) ∧
       (setIfEquals (setIfEquals s 1 (some 7) 8).2 1 (some 7) 9).1 = false ∧
       (setIfEquals (setIfEquals s 1 (some 7) 9).2 1 (some 7) 8).1 = false := by decide
+
+/-- the same race for `add_if_new`: both see the ref absent, both write, the
+second overwrites the ref the first one created (so unlocked, "never overwrites"
+fails), and for a compare-and-delete against a compare-and-swap: the delete
+removes a value it never compared with -/
+theorem add_remove_race_witness :
+    (let s : Store := ⟨[], []⟩
+     let a : Upd := ⟨.add, 1, 0, 8⟩
+     let b : Upd := ⟨.add, 1, 0, 9⟩
+     runSched a b [false, true, false, true] (s, .idle, .idle) = (⟨[(1, .sha 9)], []⟩, .done true, .done true) ∧
+       (specUpd (specUpd s a).1 b) = (⟨[(1, .sha 8)], []⟩, .done false)) ∧
+    (let s : Store := ⟨[(1, .sha 7)], []⟩
+     let a : Upd := ⟨.set, 1, 7, 8⟩
+     let b : Upd := ⟨.rm, 1, 7, 0⟩
+     runSched a b [false, true, false, true] (s, .idle, .idle) = (⟨[], []⟩, .done true, .done true) ∧
+       (specUpd (specUpd s a).1 b) = (⟨[(1, .sha 8)], []⟩, .done false) ∧
+       (specUpd (specUpd s b).1 a) = (⟨[], []⟩, .done false)) := by decide
+
+/-! ### containers with a packed-refs cache, operated one after the other -/
+
+/-- one operation of a container whose packed-refs cache is unloaded or equal to
+the packed-refs file IS the compare-and-swap specification (result and
+transport afterwards), and the cache is coherent again afterwards -/
+theorem container_coherent_is_cas (c : Cache) (s : Store) (op : Op) (h : coherent c s = true) :
+    (stepC c s op).1 = (specStep s op).1 ∧ (stepC c s op).2.1 = (specStep s op).2 ∧
+      ((∀ n, op ≠ .pack n) → coherent (stepC c s op).2.2 (stepC c s op).2.1 = true) :=
+  stepC_coherent c s op h
+
+/-- any sequence of operations of two containers on one transport (and outside
+repacks), in any order: if the acting container's cache is coherent before each
+of its operations, all results and the final transport state are those of the
+specification -/
+theorem containers_coherent_is_cas_partial (l : List (Bool × Op)) (st : Store × Cache × Cache)
+    (h : cohRun l st = true) :
+    (runCC stepC l st).1 = (runSpec (l.map Prod.snd) st.1).1 ∧
+      (runCC stepC l st).2.1 = (runSpec (l.map Prod.snd) st.1).2 :=
+  runCC_coherent l st h
+
+/-- the hypothesis holds for EVERY sequence of operations of a single container
+working alone on the transport (its own removals refresh its cache) … -/
+theorem single_container_is_cas (l : List (Bool × Op)) (s : Store) (ca cb : Cache)
+    (hl : ∀ e ∈ l, e.1 = false ∧ ∀ n, e.2 ≠ .pack n) (h : coherent ca s = true) :
+    (runCC stepC l (s, ca, cb)).1 = (runSpec (l.map Prod.snd) s).1 ∧
+      (runCC stepC l (s, ca, cb)).2.1 = (runSpec (l.map Prod.snd) s).2 :=
+  runCC_coherent l _ (cohRun_single l s ca cb hl h)
+
+/-- … and for every interleaved sequence of two containers as long as nothing
+rewrites packed-refs (only `set_if_equals` / `add_if_new`) -/
+theorem no_repack_is_cas (l : List (Bool × Op)) (s : Store) (ca cb : Cache)
+    (hl : ∀ e ∈ l, e.2.keepsPacked = true) (ha : coherent ca s = true) (hb : coherent cb s = true) :
+    (runCC stepC l (s, ca, cb)).1 = (runSpec (l.map Prod.snd) s).1 ∧
+      (runCC stepC l (s, ca, cb)).2.1 = (runSpec (l.map Prod.snd) s).2 :=
+  runCC_coherent l _ (cohRun_keepsPacked l s ca cb hl ha hb)
+
+example : cohRun [(false, .set 1 (some 7) 8), (false, .rm 1 (some 8)), (false, .add 1 9)]
+    (⟨[], [(1, 7)]⟩, some [(1, 7)], none) = true ∧
+    cohRun [(false, .set 1 (some 7) 8), (true, .add 2 9), (false, .set 2 (some 9) 3)]
+      (⟨[(0, .sym 1)], [(1, 7)]⟩, some [(1, 7)], none) = true := by decide
+
+/-- the hypothesis is necessary: a container that loaded packed-refs before
+another container removed the ref lets a compare-and-swap succeed against the
+vanished value (the specification fails it and leaves the ref absent); a
+container that loaded packed-refs before the ref was packed lets `add_if_new`
+overwrite it; `remove_if_equals` deletes a value it did not compare with -/
+theorem stale_cache_witness :
+    (runCC stepC [(true, .rm 1 (some 7)), (false, .set 1 (some 7) 8)] (⟨[], [(1, 7)]⟩, some [(1, 7)], none)
+        = ([.ok true, .ok true], ⟨[(1, .sha 8)], []⟩, some [(1, 7)], some []) ∧
+      runSpec [.rm 1 (some 7), .set 1 (some 7) 8] ⟨[], [(1, 7)]⟩ = ([.ok true, .ok false], ⟨[], []⟩)) ∧
+    (runCC stepC [(true, .pack 1), (false, .add 1 9)] (⟨[(1, .sha 7)], []⟩, some [], none)
+        = ([.ok true, .ok true], ⟨[(1, .sha 9)], [(1, 7)]⟩, some [], none) ∧
+      runSpec [.pack 1, .add 1 9] ⟨[(1, .sha 7)], []⟩ = ([.ok true, .ok false], ⟨[], [(1, 7)]⟩)) ∧
+    (runCC stepC [(true, .set 1 none 5), (true, .pack 1), (false, .rm 1 (some 7))]
+        (⟨[], [(1, 7)]⟩, some [(1, 7)], none)
+        = ([.ok true, .ok true, .ok true], ⟨[], []⟩, some [], some [(1, 7)]) ∧
+      runSpec [.set 1 none 5, .pack 1, .rm 1 (some 7)] ⟨[], [(1, 7)]⟩
+        = ([.ok true, .ok true, .ok false], ⟨[], [(1, 5)]⟩)) := by
+  refine ⟨⟨?_, ?_⟩, ⟨?_, ?_⟩, ?_, ?_⟩ <;> decide
+
+/-- with the cache dropped at the start of every conditional update (`stepF`)
+every sequence of operations of any containers and outside repacks, in any
+order, is the specification — no hypothesis -/
+theorem reload_is_cas (l : List (Bool × Op)) (st : Store × Cache × Cache) :
+    (runCC stepF l st).1 = (runSpec (l.map Prod.snd) st.1).1 ∧
+      (runCC stepF l st).2.1 = (runSpec (l.map Prod.snd) st.1).2 :=
+  runCC_fix l st
 
 /-- the code as found (F2) is not a compare-and-swap: with a non-matching
 expected value it reports success and overwrites / deletes -/
